@@ -1781,8 +1781,13 @@ class BaseBosonicState(BaseState):
 
         rho = 0
         for i in range(self.num_weights):
+            # The Walrus expects the xxpp ordering, bosonic states are stored in xpxp ordering
             rho += weights[i] * twq.density_matrix(
-                mus[i], covs[i], hbar=self._hbar, normalize=False, cutoff=cutoff
+                xpxp_to_xxpp(mus[i]),
+                xpxp_to_xxpp(covs[i]),
+                hbar=self._hbar,
+                normalize=False,
+                cutoff=cutoff,
             )
         return rho
 
@@ -1902,8 +1907,9 @@ class BaseBosonicState(BaseState):
 
         prob = 0
         for i in range(self.num_weights):
+            # The Walrus expects the xxpp ordering, bosonic states are stored in xpxp ordering
             prob += self._weights[i] * twq.density_matrix_element(
-                self._mus[i], self._covs[i], n, n, hbar=self._hbar
+                xpxp_to_xxpp(self._mus[i]), xpxp_to_xxpp(self._covs[i]), n, n, hbar=self._hbar
             )
         return prob.real
 
